@@ -1,5 +1,8 @@
 import Pywbem.Model.TypedElems
-open Lean Pywbem.Proto Pywbem.Model.CimTypes Pywbem.Model.DateTime Pywbem.Model.CimValue Pywbem.Model.TypedElems
+import Pywbem.Model.AtomicXml
+import Pywbem.Model.FloatText
+import Pywbem.Model.Utf8
+open Lean Pywbem.Proto Pywbem.Model.CimTypes Pywbem.Model.DateTime Pywbem.Model.CimValue Pywbem.Model.TypedElems Pywbem.Model.AtomicXml Pywbem.Model.FloatText
 
 /-! C06 driver.  One JSON object per line.
   {"op":"int","ty":T,"pos":[arg…],"x":arg|null,"base":arg|null[,"enforce":bool]}      → {"ok":"<int>"} | {"exc":…}
@@ -17,6 +20,9 @@ open Lean Pywbem.Proto Pywbem.Model.CimTypes Pywbem.Model.DateTime Pywbem.Model.
         "refclass":b},"values":[val…]} → {"ok":ELEM,"steps":[{"exc":…|null,"elem":ELEM}…]} | {"exc":…}   (constructor, then value setter)
   {"op":"hist","init":[{"key":n,"args":ARGS}…],"ops":[{"op":"update"|"update_existing"|"setitem"|"propvalue",
         "items":[{"key":n,"value":val | "prop":{"name":n,ARGS…}}…]}…]} → {"ok":[{"exc":…|null,"state":[[key,ELEM]…]}…]}
+  {"op":"atomic","items":[{"v":SC,"f17":"<%.17G text>"|null,"f11":…}…]} → {"ok":[{"ok":[cp…]|null}|{"exc":…},…]}   (atomic_to_cim_xml)
+  {"op":"usv","items":[{"s":[cp…]|null,"pf":"<bits>"|null,"t":T}…]}      → {"ok":[val|{"exc":…},…]}            (unpack_single_value)
+  {"op":"realm","p":17|11,"bits":["<bits>",…]} → {"ok":[{"t":"<text>","b":"<bits read back>"|null},…]}   (Model/FloatText.lean)
   {"op":"limits"}                        → the limits table, config switch and format digits the model uses -/
 
 def parseArg (j : Json) : Arg :=
@@ -156,8 +162,7 @@ def envOf (scalars : List Json) : Env :=
         (if isB then getStr j "k" == some "bytes" else (getStr j "k" == some "str" || getStr j "k" == some "char16")) &&
         ((if isB then natsOf j "s" else ((getChars j "s").getD []).map Char.toNat) == cps))).bind
         (fun j => (getInt j "pf").map Int.toNat)
-    utf8 := fun b =>
-      (scalars.find? (fun j => getStr j "k" == some "bytes" && natsOf j "s" == b)).bind (fun j => getChars j "u8")
+    utf8 := Pywbem.Model.Utf8.utf8Decode       -- concrete model of bytes.decode('utf-8') (no longer supplied by the harness)
     uri := fun s =>
       (scalars.find? (fun j => (getStr j "k" == some "str" || getStr j "k" == some "char16") && (getChars j "s").getD [] == s)).bind
         (fun j => getBool j "uri") }
@@ -289,6 +294,44 @@ def handle (j : Json) : Json :=
     | .error e, _ => excJ e
     | _, none => Json.mkObj [("bad", "op")]
     | .ok i0, some ops => Json.mkObj [("ok", Json.arr (runSteps env i0 ops).toArray)]
+  | some "atomic" =>
+    -- {"op":"atomic","items":[{"v":SC,"f17":"…"|null,"f11":"…"|null}…]}: atomic_to_cim_xml; f17/f11 = CPython's own format()
+    let outs := (getArr j "items").map (fun it =>
+      let vj := getField it "v"
+      let env := envOf [vj]
+      let f17 := fun (_ : Nat) => ((getStr it "f17").getD "").toList
+      let f11 := fun (_ : Nat) => ((getStr it "f11").getD "").toList
+      exceptJ (fun (r : Option (List Char)) => Json.mkObj [("ok", optToJson cpsToJson r)])
+        (atomicToCimXml f17 f11 env.utf8 (parseSc vj)))
+    Json.mkObj [("ok", Json.arr outs.toArray)]
+  | some "usv" =>
+    -- {"op":"usv","items":[{"s":[cp…]|null,"pf":"<bits>"|null,"t":T}…]}: TupleParser.unpack_single_value
+    let outs := (getArr j "items").map (fun it =>
+      let t : WireTy := match getStr it "t" with
+        | some "string" => .string | some "boolean" => .boolean | some "datetime" => .datetime | some "char16" => .char16
+        | some "real32" => .num .real32 | some "real64" => .num .real64
+        | some n => (match IntTy.ofName? n with | some ty => .num (.int ty) | none => .other)
+        | none => .other
+      exceptJ scToJson (unpackSingleValue ((getInt it "pf").map Int.toNat) (getChars it "s") t))
+    Json.mkObj [("ok", Json.arr outs.toArray)]
+  | some "utf8" =>
+    -- {"op":"utf8","items":[[byte…]…]} → [[cp…]|null]
+    Json.mkObj [("ok", Json.arr ((getArr j "items").map (fun it =>
+      optToJson cpsToJson (Pywbem.Model.Utf8.utf8Decode ((match it with | .arr a => a.toList | _ => []).filterMap jsonToNat?)))).toArray)]
+  | some "dteq" =>
+    -- {"op":"dteq","pairs":[[DT,DT]…]} → [true|false|{"exc":…}]   (CIMDateTime.__eq__ of two distinct objects)
+    let outs := (getArr j "pairs").map (fun pr =>
+      match pr with
+      | .arr #[a, b] => exceptJ (fun (r : Bool) => Json.bool r) (dtEq (parseDT a) (parseDT b))
+      | _ => Json.null)
+    Json.mkObj [("ok", Json.arr outs.toArray)]
+  | some "realm" =>
+    -- {"op":"realm","p":17|11,"bits":["<bits>",…]}: the concrete codec model: text = fixup (fmtG p bits), back = floatOfText text
+    let p := (getNat j "p").getD 17
+    let outs := (getArr j "bits").map (fun b =>
+      let txt := fixup (fmtG p ((jsonToInt? b).getD 0).toNat)
+      Json.mkObj [("t", Json.str (String.ofList txt)), ("b", optToJson (fun (n : Nat) => intToJson n) (floatOfText txt))])
+    Json.mkObj [("ok", Json.arr outs.toArray)]
   | some "unp" =>
     let outs := (getArr j "items").map (fun it =>
       let t : NumTy := match getStr it "t" with
